@@ -3,23 +3,37 @@ C07  Arithmetic and logic circuit builders are exact for every width.
 
 Property theorems only; helper lemmas are in Proofs/Builders*.lean.
 
-Every theorem is about `evalBuilder b pro x y`: the circuit that the harness
-builds with the real Go builder (inputs `x ‖ y`, optional ZeroWire/OneWire
-prologue `pro` as in `ssa.Program.CompileCircuit`, the builder, `ret` through
-ID gates), evaluated gate by gate in emission order.  The Lean generators are
-compared gate for gate with the real `cc.Gates` on every run (T4), so a
-theorem about the generator is a theorem about that Go output.
-Quantification: every operand width, every result width (where stated), both
-prologue variants, every operand value.
+Every theorem is about `evalBuilder b pro x y` (`evalBuilder3` for the
+multiplexer): the circuit that the harness builds with the real Go builder
+(inputs `x ‖ y`, optional ZeroWire/OneWire prologue `pro` as in
+`ssa.Program.CompileCircuit`, the builder, `ret` through ID gates), evaluated
+gate by gate in emission order.  The Lean generators are compared gate for
+gate with the real `cc.Gates` on every run (T4), so a theorem about the
+generator is a theorem about that Go output.
+
+Quantification: every operand width, every result width (where the builder
+has one), both prologue variants, every operand value.  Values are
+little-endian bit lists; `toNat` / `toInt` read them as unsigned / two's
+complement numbers.
+
+Builders whose statement FAILS on the current code have a `…_wrong` theorem
+(negation with a concrete witness, kernel-checked by `decide`) and a
+`…_partial` theorem that carries the exact width guard.
+
+NOT proved here (validated by the oracle and, for the gate lists, by T4 only):
+Kogge-Stone adder/subtractor, array / Karatsuba / Wallace multipliers, all
+dividers, NewIndex, Hamming.
 -/
 import MpcVerif.Proofs.BuildersSpec
 
 namespace Mpc
 open Mpc.Bld
 
+/-! ## Addition -/
+
 /-- `NewAdder` on the Yao target (ripple carry): for all operand widths (not
-both zero), every result width `nz ≥ 1` and all operand values the result is
-`(x + y) mod 2^nz`. -/
+both zero), every result width `nz ≥ 1` and all operand values the result has
+`nz` bits and is `(x + y) mod 2^nz`. -/
 theorem C07_adder (pro : Bool) (x y : List Bool) (nz : Nat)
     (hw : 0 < max x.length y.length) (hnz : 0 < nz) :
     (evalBuilder (fun a b => rippleAdder a b nz) pro x y).length = nz ∧
@@ -32,7 +46,289 @@ theorem C07_adder (pro : Bool) (x y : List Bool) (nz : Nat)
   intro z s' _ ⟨hb, hl, hv⟩
   exact ⟨hb, by simpa using hl, by rw [hv, hxv, hyv]⟩
 
+-- non-vacuity: 3 + 3 = 6 on 3- and 2-bit operands, 4-bit result
 example : toNat (evalBuilder (fun a b => rippleAdder a b 4) true [true, true, false] [true, true]) = 6 := by
   decide
+
+/-! ## Subtraction -/
+
+/- Full statement (FALSE on the current code, see `C07_sub_wide_wrong`):
+   for every nz ≥ 1:  toNat z = (toNat x - toNat y) mod 2^nz. -/
+
+/-- `NewSubtractor` on the Yao target is exact when the result is at most one
+bit wider than the operands (`nz ≤ max(|x|,|y|) + 1`): the result has `nz` bits
+and equals `(x - y) mod 2^nz`. -/
+theorem C07_sub_partial (pro : Bool) (x y : List Bool) (nz : Nat)
+    (hw : 0 < max x.length y.length) (hnz : 0 < nz) (hle : nz ≤ max x.length y.length + 1) :
+    (evalBuilder (fun a b => rippleSubtractor a b nz) pro x y).length = nz ∧
+    (toNat (evalBuilder (fun a b => rippleSubtractor a b nz) pro x y) : Int) =
+      ((toNat x : Int) - (toNat y : Int)) % ((2 ^ nz : Nat) : Int) := by
+  refine evalBuilder_spec (R := fun z => z.length = nz ∧
+    (toNat z : Int) = ((toNat x : Int) - (toNat y : Int)) % ((2 ^ nz : Nat) : Int)) ?_ pro (by omega)
+  intro s inp xw yw hwf hx hy hxv hyv
+  have hlx : xw.length = x.length := by rw [← hxv]; simp
+  have hly : yw.length = y.length := by rw [← hyv]; simp
+  refine (rippleSubtractor_spec hwf nz hx hy hnz (by omega)).mono ?_
+  intro z s' _ ⟨hb, hl, hv⟩
+  refine ⟨hb, by simpa using hl, ?_⟩
+  rw [hxv, hyv] at hv
+  have hlt := toNat_lt (busVal s' inp z)
+  rw [busVal_length, hl] at hlt
+  exact sub_mod_int _ _ _ _ hlt hv
+
+example : toNat (evalBuilder (fun a b => rippleSubtractor a b 3) true [false, false] [true, false]) = 7 := by
+  decide
+
+/-- Negation witness: with a result more than one bit wider than the operands
+the subtractor is wrong: 2-bit `0 - 1` into 4 bits gives 7, not 15 (the bits
+above `max+1` are the zero wire instead of copies of the borrow).  Replayed on
+the Go code: `c07 one -extra "sub 0 1 2 2 0 4 0 0 0 1 0"`. -/
+theorem C07_sub_wide_wrong :
+    toNat (evalBuilder (fun a b => rippleSubtractor a b 4) true [false, false] [true, false]) = 7 ∧
+    ((0 : Int) - 1) % 2 ^ 4 = 15 := by
+  decide
+
+/-! ## Ordered comparisons -/
+
+/-- `NewUint{Gt,Ge,Lt,Le}Comparator`: for all operand widths and values the
+single result bit is the comparison of the unsigned values. -/
+theorem C07_ucmp (k : CmpKind) (pro : Bool) (x y : List Bool) (hw : 0 < x.length + y.length) :
+    evalBuilder (comparator false k) pro x y = [k.relNat (toNat x) (toNat y)] := by
+  refine evalBuilder_spec (R := fun z => z = [k.relNat (toNat x) (toNat y)]) ?_ pro hw
+  intro s inp xw yw hwf hx hy hxv hyv
+  refine (ucomparator_spec hwf k hx hy).mono ?_
+  intro z s' _ ⟨hb, hv⟩
+  exact ⟨hb, by rw [hv, hxv, hyv]⟩
+
+example : evalBuilder (comparator false .gt) true [true, true, false] [false, true] = [true] := by decide
+
+/- Full statement for the signed comparators (FALSE for unequal widths, see
+   `C07_intCmp_unequal_wrong`): result = rel (toInt x) (toInt y). -/
+
+/-- `NewInt{Gt,Ge,Lt,Le}Comparator`, every width: the result bit is the signed
+comparison of the operands ZERO-padded to the common width (what the code
+does: `cc.ZeroPad` then two's complement at the common width). -/
+theorem C07_intCmp_partial (k : CmpKind) (pro : Bool) (x y : List Bool) (hw : 0 < max x.length y.length) :
+    evalBuilder (comparator true k) pro x y =
+      [k.relInt (toInt (padTo x (max x.length y.length))) (toInt (padTo y (max x.length y.length)))] := by
+  refine evalBuilder_spec (R := fun z => z =
+    [k.relInt (toInt (padTo x (max x.length y.length))) (toInt (padTo y (max x.length y.length)))]) ?_ pro
+    (by omega)
+  intro s inp xw yw hwf hx hy hxv hyv
+  have hlx : xw.length = x.length := by rw [← hxv]; simp
+  have hly : yw.length = y.length := by rw [← hyv]; simp
+  refine (icomparator_spec hwf k hx hy (by omega)).mono ?_
+  intro z s' _ ⟨hb, hv⟩
+  exact ⟨hb, by rw [hv, hxv, hyv, hlx, hly]⟩
+
+/-- Signed comparators are exact for equal operand widths: the result bit is
+the comparison of the two's complement values. -/
+theorem C07_intCmp_equal_width (k : CmpKind) (pro : Bool) (x y : List Bool) (hl : x.length = y.length)
+    (hw : 0 < x.length) :
+    evalBuilder (comparator true k) pro x y = [k.relInt (toInt x) (toInt y)] := by
+  rw [C07_intCmp_partial k pro x y (by omega)]
+  have hx : padTo x (max x.length y.length) = x := by simp [padTo, hl]
+  have hy : padTo y (max x.length y.length) = y := by simp [padTo, hl]
+  rw [hx, hy]
+
+example : evalBuilder (comparator true .lt) true [true, true] [true, false] = [true] := by decide  -- -1 < 1
+
+/-- Negation witness for unequal widths: `x = -1` (2 bits), `y = 3` (3 bits):
+`x < y` but `NewIntLtComparator` answers false (the narrower operand is zero
+extended).  Replayed on the Go code: `c07 one -extra "ilt 0 1 2 3 0 1 0 0 3 3 0"`. -/
+theorem C07_intCmp_unequal_wrong :
+    evalBuilder (comparator true .lt) true [true, true] [true, true, false] = [false] ∧
+    toInt [true, true] < toInt [true, true, false] := by
+  decide
+
+/-! ## Equality -/
+
+/-- `NewEqComparator`: for all widths the result bit is `x = y` (as numbers). -/
+theorem C07_eq (pro : Bool) (x y : List Bool) (hw : 0 < max x.length y.length) :
+    evalBuilder eqComparator pro x y = [decide (toNat x = toNat y)] := by
+  refine evalBuilder_spec (R := fun z => z = [decide (toNat x = toNat y)]) ?_ pro (by omega)
+  intro s inp xw yw hwf hx hy hxv hyv
+  have hlx : xw.length = x.length := by rw [← hxv]; simp
+  have hly : yw.length = y.length := by rw [← hyv]; simp
+  refine (eqComparator_spec hwf hx hy (by omega)).mono ?_
+  intro z s' _ ⟨hb, hv⟩
+  exact ⟨hb, by rw [hv, hxv, hyv]⟩
+
+/-- `NewNeqComparator`. -/
+theorem C07_neq (pro : Bool) (x y : List Bool) (hw : 0 < max x.length y.length) :
+    evalBuilder neqComparator pro x y = [decide (toNat x ≠ toNat y)] := by
+  refine evalBuilder_spec (R := fun z => z = [decide (toNat x ≠ toNat y)]) ?_ pro (by omega)
+  intro s inp xw yw hwf hx hy hxv hyv
+  have hlx : xw.length = x.length := by rw [← hxv]; simp
+  have hly : yw.length = y.length := by rw [← hyv]; simp
+  refine (neqComparator_spec hwf hx hy (by omega)).mono ?_
+  intro z s' _ ⟨hb, hv⟩
+  exact ⟨hb, by rw [hv, hxv, hyv]⟩
+
+example : evalBuilder eqComparator false [true, false, true] [true, false, true, false, false] = [true] := by
+  decide
+
+/-! ## Multiplexer -/
+
+/-- `NewMUX(cond, t, f, out)` with `len(out) = max(len t, len f)`: the result is
+`t` if the condition bit is set, else `f` (zero padded to the result width). -/
+theorem C07_mux (pro : Bool) (t f : List Bool) (c : Bool) :
+    evalBuilder3 (fun tw fw cw => do
+        let r ← newMUX (cw.getD 0 0) tw fw (max tw.length fw.length)
+        pure (r.getD [])) pro t f [c] =
+      if c then padTo t (max t.length f.length) else padTo f (max t.length f.length) := by
+  refine evalBuilder3_spec (R := fun z => z =
+    if c then padTo t (max t.length f.length) else padTo f (max t.length f.length)) ?_ pro (by simp)
+  intro s inp tw fw cw hwf ht hf hc htv hfv hcv
+  have hlt : tw.length = t.length := by rw [← htv]; simp
+  have hlf : fw.length = f.length := by rw [← hfv]; simp
+  have hlc : cw.length = 1 := by have := congrArg List.length hcv; simpa using this
+  have hcb : cw.getD 0 0 < s.next := getD_bnd hc 0 (by omega)
+  have hcval : s.val inp (cw.getD 0 0) = c := by
+    rw [val_getD cw 0 (by omega), hcv]; rfl
+  refine (newMUX_spec hwf ht hf hcb).map ?_
+  intro z s' _ ⟨r, hz, hb, hv⟩
+  subst hz
+  exact ⟨hb, by rw [Option.getD_some, hv, hcval, htv, hfv, hlt, hlf]⟩
+
+example : evalBuilder3 (fun tw fw cw => do
+    let r ← newMUX (cw.getD 0 0) tw fw (max tw.length fw.length)
+    pure (r.getD [])) true [true, true] [false, true, true] [true] = [true, true, false] := by decide
+
+/-! ## Bitwise operations -/
+
+/-- `NewBinaryAND`: for every result width `nz` up to the operand width, bit `i`
+of the result is `x_i ∧ y_i` (operands zero padded to the common width). -/
+theorem C07_band (pro : Bool) (x y : List Bool) (nz : Nat) (hw : 0 < x.length + y.length) :
+    evalBuilder (fun a b => binaryAnd a b nz) pro x y =
+      List.zipWith (· && ·) ((padTo x (max x.length y.length)).take nz)
+        ((padTo y (max x.length y.length)).take nz) := by
+  refine evalBuilder_spec (R := fun z => z = List.zipWith (· && ·) ((padTo x (max x.length y.length)).take nz)
+    ((padTo y (max x.length y.length)).take nz)) ?_ pro hw
+  intro s inp xw yw hwf hx hy hxv hyv
+  have hlx : xw.length = x.length := by rw [← hxv]; simp
+  have hly : yw.length = y.length := by rw [← hyv]; simp
+  refine (binaryOp_spec hwf (gate .and) (· && ·) (fun s a b h1 h2 h3 => gateF_spec .and s a b h1 h2 h3)
+    nz hx hy).mono ?_
+  intro z s' _ ⟨hb, hv⟩
+  exact ⟨hb, by rw [hv, hxv, hyv, hlx, hly]⟩
+
+/-- `NewBinaryOR`. -/
+theorem C07_bor (pro : Bool) (x y : List Bool) (nz : Nat) (hw : 0 < x.length + y.length) :
+    evalBuilder (fun a b => binaryOr a b nz) pro x y =
+      List.zipWith (· || ·) ((padTo x (max x.length y.length)).take nz)
+        ((padTo y (max x.length y.length)).take nz) := by
+  refine evalBuilder_spec (R := fun z => z = List.zipWith (· || ·) ((padTo x (max x.length y.length)).take nz)
+    ((padTo y (max x.length y.length)).take nz)) ?_ pro hw
+  intro s inp xw yw hwf hx hy hxv hyv
+  have hlx : xw.length = x.length := by rw [← hxv]; simp
+  have hly : yw.length = y.length := by rw [← hyv]; simp
+  refine (binaryOp_spec hwf or (· || ·) (fun s a b h1 h2 h3 => orF_spec s a b h1 h2 h3) nz hx hy).mono ?_
+  intro z s' _ ⟨hb, hv⟩
+  exact ⟨hb, by rw [hv, hxv, hyv, hlx, hly]⟩
+
+/-- `NewBinaryXOR`. -/
+theorem C07_bxor (pro : Bool) (x y : List Bool) (nz : Nat) (hw : 0 < x.length + y.length) :
+    evalBuilder (fun a b => binaryXor a b nz) pro x y =
+      List.zipWith (· != ·) ((padTo x (max x.length y.length)).take nz)
+        ((padTo y (max x.length y.length)).take nz) := by
+  refine evalBuilder_spec (R := fun z => z = List.zipWith (· != ·) ((padTo x (max x.length y.length)).take nz)
+    ((padTo y (max x.length y.length)).take nz)) ?_ pro hw
+  intro s inp xw yw hwf hx hy hxv hyv
+  have hlx : xw.length = x.length := by rw [← hxv]; simp
+  have hly : yw.length = y.length := by rw [← hyv]; simp
+  refine (binaryOp_spec hwf (gate .xor) (· != ·) (fun s a b h1 h2 h3 => gateF_spec .xor s a b h1 h2 h3)
+    nz hx hy).mono ?_
+  intro z s' _ ⟨hb, hv⟩
+  exact ⟨hb, by rw [hv, hxv, hyv, hlx, hly]⟩
+
+/-- `NewBinaryClear` (`x &^ y`). -/
+theorem C07_bclr (pro : Bool) (x y : List Bool) (nz : Nat) (hw : 0 < x.length + y.length) :
+    evalBuilder (fun a b => binaryClear a b nz) pro x y =
+      List.zipWith (fun a b => a && !b) ((padTo x (max x.length y.length)).take nz)
+        ((padTo y (max x.length y.length)).take nz) := by
+  refine evalBuilder_spec (R := fun z => z = List.zipWith (fun a b => a && !b)
+    ((padTo x (max x.length y.length)).take nz) ((padTo y (max x.length y.length)).take nz)) ?_ pro hw
+  intro s inp xw yw hwf hx hy hxv hyv
+  have hlx : xw.length = x.length := by rw [← hxv]; simp
+  have hly : yw.length = y.length := by rw [← hyv]; simp
+  refine (binaryOp_spec hwf (fun a b => do let w ← inv b; gate .and a w) (fun a b => a && !b)
+    (fun s a b h1 h2 h3 => clearF_spec s a b h1 h2 h3) nz hx hy).mono ?_
+  intro z s' _ ⟨hb, hv⟩
+  exact ⟨hb, by rw [hv, hxv, hyv, hlx, hly]⟩
+
+example : evalBuilder (fun a b => binaryClear a b 3) true [true, true, true] [false, true] = [true, false, true] := by
+  decide
+
+/-! ## Logical operations and bit tests -/
+
+/-- `NewLogicalAND` / `NewLogicalOR` on 1-bit operands. -/
+theorem C07_logical (pro : Bool) (a b : Bool) :
+    evalBuilder logicalAnd pro [a] [b] = [a && b] ∧ evalBuilder logicalOr pro [a] [b] = [a || b] := by
+  constructor
+  · refine evalBuilder_spec (R := fun z => z = [a && b]) ?_ pro (by simp)
+    intro s inp xw yw hwf hx hy hxv hyv
+    have hlx : xw.length = 1 := by have := congrArg List.length hxv; simpa using this
+    have hly : yw.length = 1 := by have := congrArg List.length hyv; simpa using this
+    refine (logicalAnd_spec hwf hx hy (by omega) (by omega)).mono ?_
+    intro z s' _ ⟨hb, hv⟩
+    exact ⟨hb, by rw [hv, hxv, hyv]; rfl⟩
+  · refine evalBuilder_spec (R := fun z => z = [a || b]) ?_ pro (by simp)
+    intro s inp xw yw hwf hx hy hxv hyv
+    have hlx : xw.length = 1 := by have := congrArg List.length hxv; simpa using this
+    have hly : yw.length = 1 := by have := congrArg List.length hyv; simpa using this
+    refine (logicalOr_spec hwf hx hy (by omega) (by omega)).mono ?_
+    intro z s' _ ⟨hb, hv⟩
+    exact ⟨hb, by rw [hv, hxv, hyv]; rfl⟩
+
+/-- `NewBitSetTest` / `NewBitClrTest` for every operand width and every index
+(also outside the operand). -/
+theorem C07_bittest (pro : Bool) (x y : List Bool) (index : Nat) (hw : 0 < x.length + y.length) :
+    evalBuilder (fun a _ => bitSetTest a index) pro x y = [x.getD index false] ∧
+    evalBuilder (fun a _ => bitClrTest a index) pro x y = [!x.getD index false] := by
+  constructor
+  · refine evalBuilder_spec (R := fun z => z = [x.getD index false]) ?_ pro hw
+    intro s inp xw yw hwf hx hy hxv hyv
+    refine (bitSetTest_spec hwf index hx).mono ?_
+    intro z s' _ ⟨hb, hv⟩
+    exact ⟨hb, by rw [hv, hxv]⟩
+  · refine evalBuilder_spec (R := fun z => z = [!x.getD index false]) ?_ pro hw
+    intro s inp xw yw hwf hx hy hxv hyv
+    refine (bitClrTest_spec hwf index hx).mono ?_
+    intro z s' _ ⟨hb, hv⟩
+    exact ⟨hb, by rw [hv, hxv]⟩
+
+example : evalBuilder (fun a _ => bitSetTest a 2) false [false, false, true] [false] = [true] := by decide
+
+/-! ## Array multiplier -/
+
+/- Full statement (FALSE, see `C07_arrayMult_wide_wrong`): for every nz ≥ 1
+   toNat z = (toNat x * toNat y) mod 2^nz.  The general-width proof of the
+   partial statement (nz ≤ 2·max) is not done; the guard is checked
+   exhaustively for operand widths up to 2 below and by the oracle up to 8. -/
+
+/-- All bit lists of length `n`. -/
+def allBits : Nat → List (List Bool)
+  | 0 => [[]]
+  | n + 1 => (allBits n).flatMap fun l => [false :: l, true :: l]
+
+/-- `NewArrayMultiplier` is exact for all operand widths 1..2, every result
+width `1 ≤ nz ≤ 2·max(|x|,|y|)` and all operand values (kernel-checked
+enumeration of the model that T4 ties to the Go gate lists; wider operands
+make kernel evaluation of the loop-based generator too slow). -/
+theorem C07_arrayMult_partial_small :
+    ∀ nx ∈ [1, 2], ∀ ny ∈ [1, 2], ∀ nz ∈ List.range (2 * max nx ny + 1), 0 < nz →
+      ∀ x ∈ allBits nx, ∀ y ∈ allBits ny,
+        toNat (evalArrayMult true x y nz) = (toNat x * toNat y) % 2 ^ nz := by
+  decide +kernel
+
+/-- Negation witness: `|z| > 2·max(|x|,|y|)`: 2-bit `1 * 2` into 6 bits gives 0
+(the surplus-bit loop assigns `z[1]` instead of `z[i]`).  Replayed on the Go
+code: `c07 one -extra "mularray 0 1 2 2 0 6 0 0 1 2 0"`. -/
+theorem C07_arrayMult_wide_wrong :
+    toNat (evalArrayMult true [true, false] [false, true] 6) = 0 ∧ (1 * 2) % 2 ^ 6 = 2 := by
+  decide +kernel
+
+example : toNat (evalArrayMult true [true, true] [true, true] 4) = 9 := by decide +kernel
 
 end Mpc
